@@ -70,6 +70,14 @@ def run(res, tier, seed, replay):
             want = [(o[0], o[1], o[2]) for o in exp]
             if not exp_abort and dec(mm["model"])[: len(want)] != want and r["compiled"] and got == exp:
                 res.broke(f"correspondence: the generated model of arm {i} disagrees with the compiled arm", json.dumps(dict(case=case, model=mm["model"], observed=want)))
+    # temporaries of the `when` expression (a lock taken for the time of the test) are gone before assign / returns run and before a rejection panics
+    for a in arms:
+        r = R[a["index"]]
+        tl = next((l for l in r["lines"] if l.startswith("TEMPS")), None)
+        if tl and tl != "TEMPS held=0 poisoned=false":
+            desc = ("unsafe " if a["m_unsafe"] else "") + (f'extern "{a["m_abi"]}" ' if a["m_abi"] else "") + "fn(..) -> " + ("()" if a["m_unit"] else "$ret") + " ; " + ",".join(k for k in ("when", "assign", "returns", "times") if a[k])
+            res.violation(f"the lock that the `when` expression takes for its test was still held when assign / returns ran (held = number of such evaluations) or when a rejected call panicked (poisoned): observed [{tl}], "
+                          "the other arms give [TEMPS held=0 poisoned=false]: a rejected call has a side effect / `when` does not merely guard the call", dict(arm=a["index"], combination=desc, program=os.path.join(work, f"arm_{a['index']}.rs")), r["lines"][-4:])
     # item names that one arm declares and the other arms of the same option set do not: the caller's own item of that name, mentioned in the
     # clauses, must mean the caller's item (as it does in the sibling arms)
     caps = armlib.capture_cases(arms)
